@@ -266,7 +266,7 @@ theorem C20_reachable (s : Sys) (l : List Step)
         rw [h]
         exact ⟨p1, p2, C17_keeper_rate_le_one.2 _ _ _ _ _ _ _ p3 hx',
           by rw [(C20_dispatcher_fields _ _ _ _ _ _ _ hx').1]; exact p4⟩
-      | reg s1 sender funds rm _ h1 hx' h b t r d => rw [h, d]; exact ⟨p1, p2, p3, p4⟩)
+      | reg s1 sender funds rm _ h1 _ _ hx' h b t r d => rw [h, d]; exact ⟨p1, p2, p3, p4⟩)
     (by
       intro x e hp
       cases e with
